@@ -1,6 +1,7 @@
 import MlModel.Lemmas.PipeAggResult
 import MlModel.Lemmas.PipeAggInst
 import MlModel.Lemmas.PipeAggExtra
+import MlModel.Lemmas.PipeAggDtype
 /-!
 # C02 — pipeline aggregation and slicing equal a brute-force group-by
 
@@ -27,6 +28,17 @@ part of the model (`Except`) and is tied to the code by the correspondence.
 * `C02_slices_replace_partial`  replace mode: as the code behaves (finding F-C02-replace-absent); the
                             batch-independent statement holds when the slice occurs in every batch
                             (`C02_slices_replace_every_batch`); counter-example in `Witness/C02.lean`
+* `C02_slices_replace_typed_partial`  the same for a decoder that is row-wise only on inputs numpy does not convert
+                            (string / bool replacement values: `RowWiseReplOn`, `Val.StrSafe`)
+* `C02_slices_replace_nonempty_batches`  the batch-independent form needs the slice value only in the batches
+                            that have rows (empty batches never matter): narrows F-C02-replace-absent
+* `C02_replace_exact_np`, `C02_replaced_row_is_value`, `C02_replace_plain_safe`, `C02_replace_exact_list`,
+  `C02_replace_exact_ndarray_listmask`
+                            values are heterogeneous scalars (int | float | str | bool | None): in replace mode every
+                            replaced entry is EXACTLY the replacement value and every kept entry is untouched — for the
+                            numpy path whenever numpy's common dtype is not a string dtype forced on non-strings (always for
+                            int / float / None values), for list columns under list masks always.  A model of an
+                            implementation that casts the value into the column's dtype violates it (`Witness/C02.lean`)
 * `C02_slicer_independence` unsliced entries do not depend on the slicer set; a slicer's entries do not depend
                             on the other slicers
 * `C02_disable_slicing`, `C02_empty_stream`
@@ -184,18 +196,16 @@ theorem C02_slices {P : Pipeline X S Rv} (hWF : P.WF) {bs : List Batch} {res : R
   rw [hval i hi, hz]
   simp only [hcond]
 
-/-- **Replace semantics** (`replace_mask_false_with = r`) of a row-level slicer, as the code behaves:
-the entry aggregates, for every batch *in which the slice value occurs*, all selected rows of that
-batch with the rows outside the slice replaced (`rr row`); batches in which it does not occur
-contribute nothing.
-
-Full-strength statement (brute-force group-by with replacement over the whole stream, i.e. the same
-with `replaceRows` for **every** batch) is *false* in general — finding F-C02-replace-absent,
-`Witness/C02.lean: C02_replace_absent_witness` — and holds under the hypothesis of
-`C02_slices_replace_every_batch` below. -/
-theorem C02_slices_replace_partial {P : Pipeline X S Rv} (hWF : P.WF) {bs : List Batch} {res : Result Rv}
+/-- **Replace semantics for every kind of replacement value** (int, float, str, bool, `None`), as the code
+behaves.  The decoder has to be row-wise only on argument lists satisfying `A`, and the aggregate's inputs
+of every batch satisfy `A` — for the column decoder `A` = "numpy does not force a string dtype on
+non-strings" (`C02_decCols_rowWiseReplOn`); outside `A` the kept rows are converted (finding
+F-C02-replace-str-promote, `Witness/C02.lean`).  Conclusion as in `C02_slices_replace_partial`: every
+replaced row is `rr row` (for `decCols`: every scalar of it exactly `r`, `C02_replaced_row_is_value`). -/
+theorem C02_slices_replace_typed_partial {P : Pipeline X S Rv} (hWF : P.WF) {bs : List Batch} {res : Result Rv}
     (hrun : aggResult P bs = .ok res) {a : Agg X S Rv} (ha : a ∈ P.aggs) (hns : a.noSlice = false)
-    {Eqv : S → S → Prop} (hL : Lawful a.m Eqv) {r : Int} {rr : X → X} (hdec : RowWiseRepl a.dec r rr)
+    {Eqv : S → S → Prop} (hL : Lawful a.m Eqv) {r : Scalar} {rr : X → X} {A : List Val → Prop}
+    (hdec : RowWiseReplOn A a.dec r rr) (hA : ∀ b ∈ bs, ∀ args, a.inputs b = .ok args → A args)
     {sl : Slicer} (hsl : sl ∈ P.slicers) {f : List Val → Except ErrKind (List (List Int))}
     (hfn : sl.fn = .rows f) (hrep : sl.replace = some r) (v : List Int) :
     ∃ rowss, mapE a.rowsOf bs = .ok rowss ∧
@@ -212,8 +222,8 @@ theorem C02_slices_replace_partial {P : Pipeline X S Rv} (hWF : P.WF) {bs : List
   have hz := mapE_zip_eq (fun (b : Batch) (rows : List X) =>
       if occursIn f v (sl.featRows b) then replaceRows f v rr (sl.featRows b) rows else [])
     hrows hfed (by
-      intro b rows fed _ h1 h2
-      exact sliceRows_rowSlicer_replace hdec hfn hrep h1 v h2)
+      intro b rows fed hb h1 h2
+      exact sliceRows_rowSlicer_replace_on hdec hfn hrep (hA b hb) h1 v h2)
   have hcond : (∃ b ∈ bs, (⟨sl.name, v⟩ : SliceKey) ∈ sliceKeysOf sl b) ↔
       ∃ b ∈ bs, ∃ row ∈ sl.featRows b, inSlice f v row = true := by
     constructor
@@ -232,12 +242,38 @@ theorem C02_slices_replace_partial {P : Pipeline X S Rv} (hWF : P.WF) {bs : List
   rw [hval i hi, hz]
   simp only [hcond]
 
+
+/-- **Replace semantics** (`replace_mask_false_with = r`) of a row-level slicer, as the code behaves:
+the entry aggregates, for every batch *in which the slice value occurs*, all selected rows of that
+batch with the rows outside the slice replaced (`rr row`); batches in which it does not occur
+contribute nothing.
+
+Full-strength statement (brute-force group-by with replacement over the whole stream, i.e. the same
+with `replaceRows` for **every** batch) is *false* in general — finding F-C02-replace-absent,
+`Witness/C02.lean: C02_replace_absent_witness` — and holds under the hypothesis of
+`C02_slices_replace_every_batch` below. -/
+theorem C02_slices_replace_partial {P : Pipeline X S Rv} (hWF : P.WF) {bs : List Batch} {res : Result Rv}
+    (hrun : aggResult P bs = .ok res) {a : Agg X S Rv} (ha : a ∈ P.aggs) (hns : a.noSlice = false)
+    {Eqv : S → S → Prop} (hL : Lawful a.m Eqv) {r : Scalar} {rr : X → X} (hdec : RowWiseRepl a.dec r rr)
+    {sl : Slicer} (hsl : sl ∈ P.slicers) {f : List Val → Except ErrKind (List (List Int))}
+    (hfn : sl.fn = .rows f) (hrep : sl.replace = some r) (v : List Int) :
+    ∃ rowss, mapE a.rowsOf bs = .ok rowss ∧
+      ∀ i (hi : i < a.out.length),
+        AList.get? res ⟨a.out[i], ⟨sl.name, v⟩⟩ =
+          if ∃ b ∈ bs, ∃ row ∈ sl.featRows b, inSlice f v row = true then
+            a.outputAt (a.m.ofBatch
+              (((bs.zip rowss).map fun p =>
+                if occursIn f v (sl.featRows p.1) then replaceRows f v rr (sl.featRows p.1) p.2 else []).flatten)) i
+          else none := by
+  exact C02_slices_replace_typed_partial hWF hrun ha hns hL (A := fun _ => True)
+    (fun args rows bits args' _ h1 h2 => hdec args rows bits args' h1 h2) (fun _ _ _ _ => trivial) hsl hfn hrep v
+
 /-- Replace semantics, batch-independent form: when the slice value occurs in **every** batch of the
 (non-empty) stream, the entry is the aggregate of all selected rows of the stream with the rows outside the slice
 replaced. -/
 theorem C02_slices_replace_every_batch {P : Pipeline X S Rv} (hWF : P.WF) {bs : List Batch} {res : Result Rv}
     (hrun : aggResult P bs = .ok res) {a : Agg X S Rv} (ha : a ∈ P.aggs) (hns : a.noSlice = false)
-    {Eqv : S → S → Prop} (hL : Lawful a.m Eqv) {r : Int} {rr : X → X} (hdec : RowWiseRepl a.dec r rr)
+    {Eqv : S → S → Prop} (hL : Lawful a.m Eqv) {r : Scalar} {rr : X → X} (hdec : RowWiseRepl a.dec r rr)
     {sl : Slicer} (hsl : sl ∈ P.slicers) {f : List Val → Except ErrKind (List (List Int))}
     (hfn : sl.fn = .rows f) (hrep : sl.replace = some r) (v : List Int)
     (hne : bs ≠ []) (hall : ∀ b ∈ bs, occursIn f v (sl.featRows b) = true) :
@@ -265,6 +301,41 @@ theorem C02_slices_replace_every_batch {P : Pipeline X S Rv} (hWF : P.WF) {bs : 
     intro p hp
     rw [hall p.1 (List.of_mem_zip hp).1]
     rfl
+  rw [this]
+
+/-- Replace semantics, batch-independent form, **narrowed**: the slice value has to occur only in the batches
+that have feature rows at all — empty batches contribute nothing to the brute-force group-by either.  So the
+value reported for a replace-mode slice differs from the group-by with replacement over the whole stream
+(finding F-C02-replace-absent) only if some NON-EMPTY batch lacks the slice value. -/
+theorem C02_slices_replace_nonempty_batches {P : Pipeline X S Rv} (hWF : P.WF) {bs : List Batch} {res : Result Rv}
+    (hrun : aggResult P bs = .ok res) {a : Agg X S Rv} (ha : a ∈ P.aggs) (hns : a.noSlice = false)
+    {Eqv : S → S → Prop} (hL : Lawful a.m Eqv) {r : Scalar} {rr : X → X} (hdec : RowWiseRepl a.dec r rr)
+    {sl : Slicer} (hsl : sl ∈ P.slicers) {f : List Val → Except ErrKind (List (List Int))}
+    (hfn : sl.fn = .rows f) (hrep : sl.replace = some r) (v : List Int)
+    (hex : ∃ b ∈ bs, occursIn f v (sl.featRows b) = true)
+    (hall : ∀ b ∈ bs, sl.featRows b = [] ∨ occursIn f v (sl.featRows b) = true) :
+    ∃ rowss, mapE a.rowsOf bs = .ok rowss ∧
+      ∀ i (hi : i < a.out.length),
+        AList.get? res ⟨a.out[i], ⟨sl.name, v⟩⟩ =
+          a.outputAt (a.m.ofBatch
+            (((bs.zip rowss).map fun p => replaceRows f v rr (sl.featRows p.1) p.2).flatten)) i := by
+  obtain ⟨rowss, hrows, hval⟩ := C02_slices_replace_partial hWF hrun ha hns hL hdec hsl hfn hrep v
+  refine ⟨rowss, hrows, fun i hi => ?_⟩
+  rw [hval i hi]
+  have hex' : ∃ b ∈ bs, ∃ row ∈ sl.featRows b, inSlice f v row = true := by
+    obtain ⟨b, hb, ho⟩ := hex
+    unfold occursIn at ho
+    rw [List.any_eq_true] at ho
+    exact ⟨b, hb, ho⟩
+  simp only [hex', if_true]
+  have : ((bs.zip rowss).map fun p =>
+      if occursIn f v (sl.featRows p.1) then replaceRows f v rr (sl.featRows p.1) p.2 else []) =
+      ((bs.zip rowss).map fun p => replaceRows f v rr (sl.featRows p.1) p.2) := by
+    apply List.map_congr_left
+    intro p hp
+    rcases hall p.1 (List.of_mem_zip hp).1 with he | ho
+    · rw [he]; simp [occursIn, replaceRows]
+    · rw [ho]; rfl
   rw [this]
 
 /-- **Slicer independence.**  Two pipelines with the same aggregates and arbitrary slicer sets, run
@@ -355,6 +426,57 @@ theorem C02_builder_wf {P : Pipeline X S Rv} (h : P.validate = .ok ())
     (hout : ∀ a ∈ P.aggs, a.out.Nodup ∧ a.out ≠ []) (hname : ∀ sl ∈ P.slicers, sl.name ≠ []) : P.WF :=
   WF_of_validate h hout hname
 
+/-! ### heterogeneous values: the replaced entry is exactly the replacement value -/
+
+/-- **numpy path** (`np.where(mask[:, None, ..], column, r)`; row-level slicers, `np` masks), any kind of
+column and of replacement value `r`: when numpy does not force a string dtype on non-strings
+(`Val.StrSafe`), the result has one entry per row; where the bit is set it is the input row, untouched,
+where it is clear it is `Val.fill r row`, all of whose scalars are exactly `r` (`C02_replaced_row_is_value`).
+An implementation that writes `r` INTO the column's dtype (0.5 → 0, → True, `'<pad>'` → `'<'`) fails this:
+`C02_casting_impl_witness`. -/
+theorem C02_replace_exact_np {r : Scalar} {bits : List Bool} {xs : List Val} {y : Val}
+    (hsafe : Val.StrSafe r (.seq true xs)) (h : applyNp (some r) bits xs = .ok y) :
+    ∃ ys, y = .seq true ys ∧ ys.length = xs.length ∧ bits.length = xs.length ∧
+      ∀ (i : Nat) (b : Bool) (x : Val), bits[i]? = some b → xs[i]? = some x →
+        ys[i]? = some (if b = true then x else Val.fill r x) := by
+  obtain ⟨rfl, hl⟩ := applyNp_some_exact hsafe h
+  exact ⟨_, rfl, replBits_length _ _ _ hl, hl, fun i b x hb hx => replBits_getElem? _ bits xs i b x hb hx⟩
+
+/-- every scalar of a replaced row is the replacement value itself — same kind, same value
+(`0.5` stays the float 0.5 in an int column, `'<pad>'` keeps its length, `None` stays `None`) -/
+theorem C02_replaced_row_is_value (r : Scalar) (x : Val) : ∀ s ∈ (Val.fill r x).scalars, s = r :=
+  Val.fill_scalars r x
+
+/-- int, float and `None` replacement values are exact on EVERY column (numpy promotes numerically, or to
+`object`, or raises): no hypothesis on the column is needed -/
+theorem C02_replace_plain_safe {r : Scalar} (hr : r.Plain) (x : Val) : x.StrSafe r :=
+  Val.strSafe_of_plain hr x
+
+/-- **Python-level path** (a `list` column under a list mask, tree.py:141-162), any kinds: the result is a
+list with one element per input element — exactly the replacement value where the mask says `False`
+(`None` included), the input element where it says `True`; numpy is not involved. -/
+theorem C02_replace_exact_list {r : Scalar} {xs : List Val} {ms : List Mask} {y : Val}
+    (h : applyMask (some r) (.seq false xs) (.seq ms) = .ok y) :
+    ∃ ys, y = .seq false ys ∧ ys.length = xs.length ∧ ms.length = xs.length ∧
+      ∀ i : Nat, (ms[i]? = some Mask.ff → ys[i]? = some r.toVal) ∧ (ms[i]? = some Mask.tt → ys[i]? = xs[i]?) := by
+  obtain ⟨ys, h1, rfl⟩ := applyMask_list_ok h
+  obtain ⟨h2, h3, h4⟩ := applySeq_replace_exact r xs ms ys h1
+  exact ⟨ys, rfl, h2, h3, h4⟩
+
+/-- **Element-wise path on an ndarray column** (list mask; the result is rebuilt by `np.asarray`): the same
+exactness as for a list column whenever the dtype numpy infers for the result is not a string dtype forced
+on non-strings (e.g. int column and 0.5, bool column and `None`, string column and `'<pad>'`). -/
+theorem C02_replace_exact_ndarray_listmask {r : Scalar} {xs : List Val} {ms : List Mask} {y : Val}
+    (h : applyMask (some r) (.seq true xs) (.seq ms) = .ok y)
+    (hsafe : ∀ ys, applySeq (some r) xs ms = .ok ys →
+      inferDType (scalarsList ys) ≠ .str ∨ ∀ s ∈ scalarsList ys, s.dtype = .str) :
+    ∃ ys, y = .seq true ys ∧ ys.length = xs.length ∧ ms.length = xs.length ∧
+      ∀ i : Nat, (ms[i]? = some Mask.ff → ys[i]? = some r.toVal) ∧ (ms[i]? = some Mask.tt → ys[i]? = xs[i]?) := by
+  obtain ⟨ys, h1, rfl⟩ := applyMask_ndarray_ok h
+  obtain ⟨h2, h3, h4⟩ := applySeq_replace_exact r xs ms ys h1
+  rw [npCast_infer_id (hsafe ys h1)]
+  exact ⟨ys, rfl, h2, h3, h4⟩
+
 /-! ### non-vacuity: the hypotheses are met by the aggregate and the decoder used in the tie -/
 
 /-- the concrete aggregate of the correspondence (`Stat`, any view) is lawful -/
@@ -366,7 +488,17 @@ theorem C02_decCols_rowWise : RowWise decCols := decCols_rowWise
 
 /-- … and in replace mode (an unselected row has every scalar replaced) -/
 theorem C02_decCols_rowWiseRepl (r : Int) :
-    RowWiseRepl decCols r (fun row : List Val => row.map (Val.fill r)) := decCols_rowWiseRepl r
+    RowWiseRepl decCols r (fun row : List Val => row.map (Val.fill r)) :=
+  decCols_rowWiseRepl r ⟨by simp [Scalar.dtype], by simp [Scalar.dtype]⟩
+
+/-- … for every int, float or `None` replacement value, on every column … -/
+theorem C02_decCols_rowWiseRepl_plain (r : Scalar) (hr : r.Plain) :
+    RowWiseRepl decCols r (fun row : List Val => row.map (Val.fill r)) := decCols_rowWiseRepl r hr
+
+/-- … and for EVERY replacement value (strings and bools included) on columns numpy does not convert -/
+theorem C02_decCols_rowWiseReplOn (r : Scalar) :
+    RowWiseReplOn (fun args => ∀ x ∈ args, x.StrSafe r) decCols r
+      (fun row : List Val => row.map (Val.fill r)) := decCols_rowWiseReplOn r
 
 /-- the dict-field decoder (a `dict` / `SELF` input whose ndarray leaves are masked by broadcasting,
 tree.py:181-189) is row-wise as well -/
@@ -376,6 +508,29 @@ theorem C02_decField_rowWise (k : String) : RowWise (decField k) := decField_row
 a replace-mode and a `within_values` cross slicer; a stream in which slice `a = 2` first occurs in the third
 batch and the second batch is empty) satisfies the hypotheses, runs, and reports what the theorems say
 (tests, by evaluation) -/
+
+/-- `StrSafe` is met: 0.5 / `None` into an int column, `'pad'` into a string column, `'pad'` into an object column;
+and it is a real restriction: `'pad'` into an int column is not safe -/
+example : (Scalar.flt 5 1).Plain ∧ Scalar.none.Plain ∧ ¬ (Scalar.str "pad").Plain := by decide
+example : Val.StrSafe (.str "pad") (.seq true [.leaf (.str "a"), .leaf (.str "b")]) :=
+  Or.inr ⟨rfl, by decide⟩
+example : Val.StrSafe (.str "pad") (.seq true [.leaf 1, .null, .leaf (.str "b")]) := Or.inl (by decide)
+example : Val.StrSafe (.bool true) (exCol [1, 2]) := Or.inl (by decide)
+example : applyNp (some (.flt 5 1)) [true, false, true] [.leaf 1, .leaf 9, .leaf 5]
+    = .ok (.seq true [.leaf 1, .leaf (.flt 5 1), .leaf 5]) := by rfl
+example : applyNp (some (.str "<pad>")) [true, false] [.leaf (.str "a"), .leaf (.str "b")]
+    = .ok (.seq true [.leaf (.str "a"), .leaf (.str "<pad>")]) := by rfl
+example : applyNp (some .none) [false, true] [.seq true [.leaf 1, .leaf 2], .seq true [.leaf 3, .leaf 4]]
+    = .ok (.seq true [.seq true [.null, .null], .seq true [.leaf 3, .leaf 4]]) := by rfl
+example : applyMask (some (.flt 5 1)) (.seq false [.leaf 1, .leaf 9]) (.seq [.tt, .ff])
+    = .ok (.seq false [.leaf 1, .leaf (.flt 5 1)]) := by
+  simp [applyMask, applySeq, rewrap, Except.map, Scalar.toVal]
+
+/-- an int ndarray column under a list mask with 0.5: numpy infers float64, nothing is converted -/
+example : applyMask (some (.flt 5 1)) (.seq true [.leaf 1, .leaf 9]) (.seq [.tt, .ff])
+    = .ok (.seq true [.leaf 1, .leaf (.flt 5 1)]) := by
+  simp [applyMask, applySeq, rewrap, Except.map, Scalar.toVal, Val.shape?, shapes, npCast, inferDType,
+    scalarsList, Val.scalars, Scalar.dtype, DType.infer]
 
 example : exPipeline.WF := exPipeline_WF
 example : exPipeline.validate = .ok () := rfl
